@@ -390,6 +390,51 @@ func autoSites(p *pkg, fn, prefix string, calls map[string]string) (string, []st
 			emit(fmt.Sprintf("%s_g%d_%d", prefix, k, j), fmt.Sprintf("%s: argument %d of the %s call #%d (%s)", fn, j, what, k, p.fset.Position(a.Pos())), func(t *tr) (string, ty) { return t.expr(a) })
 		}
 	}
+	// arithmetic that is neither assigned nor tested: index expressions, call arguments, composite-literal fields
+	nx := 0
+	arith := func(e ast.Expr) bool {
+		for {
+			pe, ok := e.(*ast.ParenExpr)
+			if !ok {
+				break
+			}
+			e = pe.X
+		}
+		switch x := e.(type) {
+		case *ast.BinaryExpr:
+			return true
+		case *ast.UnaryExpr:
+			return x.Op != token.AND && x.Op != token.ARROW
+		}
+		return false
+	}
+	extra := func(e ast.Expr, what string) {
+		if !arith(e) {
+			return
+		}
+		if tv, ok := p.info.Types[e]; ok && tv.Value != nil {
+			return // a constant expression
+		}
+		k := nx
+		nx++
+		emit(fmt.Sprintf("%s_x%d", prefix, k), fmt.Sprintf("%s: %s (%s)", fn, what, p.fset.Position(e.Pos())), func(t *tr) (string, ty) { return t.expr(e) })
+	}
+	ast.Inspect(fd.Body, func(n ast.Node) bool {
+		switch x := n.(type) {
+		case *ast.IndexExpr:
+			extra(x.Index, "index into "+(&tr{p: p}).exprString(x.X))
+		case *ast.CallExpr:
+			if ftv, ok := p.info.Types[x.Fun]; ok && ftv.IsType() {
+				return true // a conversion, not a call
+			}
+			for j, a := range x.Args {
+				extra(a, fmt.Sprintf("argument %d of %s", j, (&tr{p: p}).exprString(x.Fun)))
+			}
+		case *ast.KeyValueExpr:
+			extra(x.Value, "field "+(&tr{p: p}).exprString(x.Key))
+		}
+		return true
+	})
 	ast.Inspect(fd.Body, func(n ast.Node) bool {
 		switch as := n.(type) {
 		case *ast.GoStmt:
@@ -442,7 +487,7 @@ func autoSites(p *pkg, fn, prefix string, calls map[string]string) (string, []st
 		r := r
 		emit(fmt.Sprintf("%s_r%d", prefix, k), fmt.Sprintf("%s: returned value #%d (%s)", fn, k, p.fset.Position(r.Pos())), func(t *tr) (string, ty) { return t.expr(r) })
 	}
-	shape := fmt.Sprintf("(\"%s\", [%d, %d, %d, %d, %d])", prefix, len(cs), nu, na, len(rs), ng)
+	shape := fmt.Sprintf("(\"%s\", [%d, %d, %d, %d, %d, %d])", prefix, len(cs), nu, na, len(rs), ng, nx)
 	return out.String(), rows, shape
 }
 
@@ -465,7 +510,7 @@ func autoModule(out, mod string, p *pkg, fns [][2]string, calls map[string]strin
 	}
 	s += body
 	s += "/-- generated definitions and the identifiers each one mentions, in parameter order -/\ndef siteParams : List (String × List String) := [" + strings.Join(rows, ",\n  ") + "]\n\n"
-	s += "/-- per function: number of conditions, compound assignments, plain assignments, single-value returns, go/defer statements in the source -/\ndef shape : List (String × List Nat) := [" + strings.Join(shapes, ",\n  ") + "]\n"
+	s += "/-- per function: number of conditions, compound assignments, plain assignments, single-value returns, go/defer statements, further arithmetic expressions (indices, call arguments, literal fields) in the source -/\ndef shape : List (String × List Nat) := [" + strings.Join(shapes, ",\n  ") + "]\n"
 	s += footer(mod)
 	write(out, mod, s)
 }
